@@ -700,3 +700,300 @@ Proof.
   destruct (run_invariant s0 h s0 MIN_DT [] (fresh_inv_state s0 Hfx Hfr) ltac:(lia) Ht Hty) as (now' & Hinv & _).
   rewrite app_nil_r in Hinv. unfold last_write. apply (is_spec _ _ _ _ Hinv).
 Qed.
+
+(* ------------------------------------------------------------------ every dictionary-free shape starts fresh and fixed *)
+Lemma init_fresh_fx : forall sh, has_dict sh = false ->
+  forall q x, get q (init sh) = Some x -> lmt_of x = MIN_DT /\ (match x with Dict _ _ _ => False | _ => True end).
+Proof.
+  intros sh. induction sh as [|fs IH|n e IH|e IH] using shape_ind'; intros Hd q x Hg.
+  - destruct q; cbn in Hg; [injection Hg as <-; split; [reflexivity|exact I]|discriminate].
+  - cbn [init] in Hg. destruct q as [|i q].
+    + cbn in Hg. injection Hg as <-. split; [reflexivity|exact I].
+    + cbn [get] in Hg. destruct (zidx i) as [m|]; [|discriminate].
+      rewrite nth_error_map in Hg. destruct (nth_error fs m) as [f|] eqn:Hf; cbn [option_map] in Hg; [|discriminate].
+      rewrite Forall_forall in IH.
+      assert (Hdf : has_dict f = false).
+      { cbn [has_dict] in Hd. destruct (has_dict f) eqn:E; [|reflexivity].
+        assert (existsb has_dict fs = true) by (apply existsb_exists; exists f; split; [eapply nth_error_In; eassumption|exact E]).
+        congruence. }
+      apply (IH f (nth_error_In _ _ Hf) Hdf q x Hg).
+  - cbn [init] in Hg. destruct q as [|i q].
+    + cbn in Hg. injection Hg as <-. split; [reflexivity|exact I].
+    + cbn [get] in Hg. destruct (zidx i) as [m|]; [|discriminate].
+      destruct (nth_error (repeat (init e) n) m) as [c|] eqn:Hc; [|discriminate].
+      apply nth_error_In, repeat_spec in Hc. subst c. apply (IH Hd q x Hg).
+  - cbn in Hd. discriminate.
+Qed.
+
+Lemma init_fx : forall sh, has_dict sh = false -> fx (init sh).
+Proof.
+  intros sh Hd q Hq. unfold skel in Hq. destruct (get q (init sh)) as [x|] eqn:Hg; [|discriminate].
+  destruct (init_fresh_fx sh Hd q x Hg) as [_ H]. destruct x; try discriminate. exact H.
+Qed.
+
+Lemma init_fresh : forall sh, has_dict sh = false -> fresh (init sh).
+Proof. intros sh Hd q x Hg. apply (init_fresh_fx sh Hd q x Hg). Qed.
+
+(* ------------------------------------------------------------------ the observables in terms of the write log *)
+Section Observables.
+  Variable sh : shape.
+  Variable h : hist.
+  Hypothesis Hsh : has_dict sh = false.
+  Hypothesis Htimes : times_ok MIN_DT h.
+  Hypothesis Htyped : Forall (fun e => typed (init sh) (snd e)) h.
+
+  Lemma lmt_is_last_write_sh : forall q, lmt_at (run h (init sh)) q = last_write h q.
+  Proof. apply lmt_is_last_write_gen; [apply init_fx|apply init_fresh| |]; assumption. Qed.
+
+  Lemma node_exists : forall q, skel (init sh) q <> None -> exists x, get q (run h (init sh)) = Some x.
+  Proof.
+    intros q Hq.
+    destruct (run_invariant (init sh) h (init sh) MIN_DT [] (fresh_inv_state _ (init_fx _ Hsh) (init_fresh _ Hsh))
+                ltac:(lia) Htimes Htyped) as (now' & Hinv & _).
+    pose proof (is_skel _ _ _ _ Hinv q) as Hs. unfold skel in Hs, Hq.
+    destruct (get q (run h (init sh))) as [x|]; [exists x; reflexivity|].
+    destruct (get q (init sh)) as [[| |]|]; try discriminate. exfalso. apply Hq. reflexivity.
+  Qed.
+
+  Lemma node_lmt : forall q x, get q (run h (init sh)) = Some x -> lmt_of x = last_write h q.
+  Proof. intros q x Hx. rewrite <- lmt_is_last_write_sh. unfold lmt_at. rewrite Hx. reflexivity. Qed.
+
+  Lemma modified_iff_written_sh : forall q x t, get q (run h (init sh)) = Some x ->
+    (modified t x = true <-> (last_write h q = t /\ t <> MIN_DT)).
+  Proof. intros q x t Hx. unfold modified. rewrite (node_lmt q x Hx). lia. Qed.
+
+  Lemma valid_iff_written_sh : forall q x, get q (run h (init sh)) = Some x ->
+    (valid x = true <-> last_write h q <> MIN_DT).
+  Proof. intros q x Hx. unfold valid. rewrite (node_lmt q x Hx). lia. Qed.
+
+  Lemma delta_only_in_cycle_sh : forall q x t, get q (run h (init sh)) = Some x ->
+    (delta_readable t x = true <-> (last_write h q = t /\ t <> MIN_DT)).
+  Proof. intros q x t Hx. unfold delta_readable. rewrite (node_lmt q x Hx). lia. Qed.
+End Observables.
+
+(* ------------------------------------------------------------------ the write log, read without the fold *)
+(* does an operation concern endpoint q: a write at or below it, an invalidation strictly below it *)
+Definition concerns (o : op) (q : path) : bool :=
+  match o with
+  | OSet p _ => prefixb q p
+  | OInv p => sprefixb q p
+  | _ => false
+  end.
+
+(* an endpoint's time is never a cycle in which nothing concerned it *)
+Lemma last_write_only_if_op : forall rh q t,
+  last_write_rev rh q = t -> t <> MIN_DT -> exists o, In (t, o) rh /\ concerns o q = true.
+Proof.
+  induction rh as [|[t0 o] rh IH]; intros q t H Ht; cbn [last_write_rev] in H; [congruence|].
+  assert (Hrec : last_write_rev rh q = t -> exists o0, In (t, o0) ((t0, o) :: rh) /\ concerns o0 q = true).
+  { intros H'. destruct (IH q t H' Ht) as (o0 & Hin & Hc). exists o0. split; [right; exact Hin|exact Hc]. }
+  destruct o as [p v|p|p vt|p key|p key]; cbn [spec_step] in H; try (apply Hrec; exact H).
+  - destruct (prefixb q p) eqn:E; [|apply Hrec; exact H].
+    subst t0. exists (OSet p v). split; [left; reflexivity|exact E].
+  - destruct (last_write_rev rh p =? MIN_DT); [apply Hrec; exact H|].
+    destruct (prefixb p q) eqn:E1; [congruence|].
+    destruct (prefixb q p) eqn:E2; [|apply Hrec; exact H].
+    subst t0. exists (OInv p). split; [left; reflexivity|]. cbn [concerns]. unfold sprefixb. rewrite E1, E2. reflexivity.
+Qed.
+
+(* and it is never later than the latest cycle of the history *)
+Lemma last_write_le : forall rh tmax q, MIN_DT <= tmax -> (forall e, In e rh -> fst e <= tmax) -> last_write_rev rh q <= tmax.
+Proof.
+  induction rh as [|[t0 o] rh IH]; intros tmax q H0 H; cbn [last_write_rev]; [lia|].
+  assert (Ht0 : t0 <= tmax) by (apply (H (t0, o)); left; reflexivity).
+  assert (Hr : forall q', last_write_rev rh q' <= tmax) by (intros q'; apply IH; [exact H0|intros e He; apply H; right; exact He]).
+  pose proof (Hr q). destruct o as [p v|p|p vt|p key|p key]; cbn [spec_step]; try assumption.
+  - destruct (prefixb q p); lia.
+  - destruct (last_write_rev rh p =? MIN_DT); [lia|]. destruct (prefixb p q); [lia|]. destruct (prefixb q p); lia.
+Qed.
+
+(* a write is seen by the written leaf and every enclosing collection, in that cycle *)
+Lemma write_is_visible : forall h t p v q, prefixb q p = true -> last_write (h ++ [(t, OSet p v)]) q = t.
+Proof. intros h t p v q H. unfold last_write. rewrite rev_app_distr. cbn. rewrite H. reflexivity. Qed.
+
+(* an invalidation of a valid node wipes it and everything below, and is a change of everything above *)
+Lemma invalidate_is_visible : forall h t p q, last_write h p <> MIN_DT ->
+  last_write (h ++ [(t, OInv p)]) q =
+  if prefixb p q then MIN_DT else if prefixb q p then t else last_write h q.
+Proof.
+  intros h t p q H. unfold last_write in *. rewrite rev_app_distr. cbn.
+  destruct (last_write_rev (rev h) p =? MIN_DT) eqn:E; [lia|reflexivity].
+Qed.
+
+(* invalidating what is not valid changes nothing *)
+Lemma invalidate_invalid_noop : forall h t p q, last_write h p = MIN_DT -> last_write (h ++ [(t, OInv p)]) q = last_write h q.
+Proof.
+  intros h t p q H. unfold last_write in *. rewrite rev_app_distr. cbn. rewrite H. reflexivity.
+Qed.
+
+(* ------------------------------------------------------------------ parents and children *)
+Lemma prefixb_strict_child : forall q p, prefixb q p = true -> q <> p -> exists i, prefixb (q ++ [i]) p = true.
+Proof.
+  induction q as [|x q IH]; intros p H Hne.
+  - destruct p as [|y p]; [congruence|]. exists y. cbn. assert (y =? y = true) as -> by lia. reflexivity.
+  - destruct p as [|y p]; cbn in H; [discriminate|].
+    destruct (x =? y) eqn:E; cbn in H; [|discriminate]. assert (x = y) by lia. subst y.
+    destruct (IH p H) as [i Hi]; [congruence|]. exists i. cbn. rewrite E. exact Hi.
+Qed.
+
+Lemma prefixb_snoc_r : forall p q i, prefixb p (q ++ [i]) = true -> prefixb p q = true \/ p = q ++ [i].
+Proof.
+  induction p as [|x p IH]; intros q i H; [left; reflexivity|].
+  destruct q as [|y q]; cbn in H.
+  - destruct (x =? i) eqn:E; cbn in H; [|discriminate]. apply prefixb_nil_r in H. subst p. right. cbn. f_equal. lia.
+  - destruct (x =? y) eqn:E; cbn in H; [|discriminate].
+    destruct (IH q i H) as [Hl| ->]; [left; cbn; rewrite E; exact Hl|right; cbn; f_equal; lia].
+Qed.
+
+(* a collection's time equals the cycle only if a child's does, or a child was invalidated in that cycle *)
+Lemma parent_only_if_child_rev : forall rh q t,
+  (forall t' p v, In (t', OSet p v) rh -> p <> q) ->
+  last_write_rev rh q = t -> t <> MIN_DT ->
+  (exists i, last_write_rev rh (q ++ [i]) = t) \/ (exists p, In (t, OInv p) rh /\ sprefixb q p = true).
+Proof.
+  induction rh as [|[t0 o] rh IH]; intros q t Hleaf H Ht; cbn [last_write_rev] in H; [congruence|].
+  assert (Hleaf' : forall t' p v, In (t', OSet p v) rh -> p <> q) by (intros t' p v Hin; apply (Hleaf t' p v); right; exact Hin).
+  assert (Hrec : last_write_rev rh q = t ->
+                 (forall i, spec_step t0 o (last_write_rev rh) (q ++ [i]) = last_write_rev rh (q ++ [i])) ->
+                 (exists i, last_write_rev ((t0, o) :: rh) (q ++ [i]) = t) \/
+                 (exists p, In (t, OInv p) ((t0, o) :: rh) /\ sprefixb q p = true)).
+  { intros H' Hsame. destruct (IH q t Hleaf' H' Ht) as [[i Hi]|(p & Hin & Hs)].
+    - left. exists i. cbn [last_write_rev]. rewrite Hsame. exact Hi.
+    - right. exists p. split; [right; exact Hin|exact Hs]. }
+  destruct o as [p v|p|p vt|p key|p key]; cbn [spec_step] in H; try (apply Hrec; [exact H|reflexivity]).
+  - destruct (prefixb q p) eqn:E.
+    + subst t0. assert (Hne : q <> p) by (intros ->; apply (Hleaf t p v); [left; reflexivity|reflexivity]).
+      destruct (prefixb_strict_child q p E Hne) as [i Hi]. left. exists i. cbn [last_write_rev spec_step]. rewrite Hi. reflexivity.
+    + apply Hrec; [exact H|]. intros i. cbn [spec_step].
+      destruct (prefixb (q ++ [i]) p) eqn:E2; [|reflexivity]. rewrite (prefixb_snoc_l _ _ _ E2) in E. discriminate.
+  - destruct (last_write_rev rh p =? MIN_DT) eqn:Ev.
+    + apply Hrec; [exact H|]. intros i. cbn [spec_step]. rewrite Ev. reflexivity.
+    + destruct (prefixb p q) eqn:E1; [congruence|].
+      destruct (prefixb q p) eqn:E2.
+      * subst t0. right. exists p. split; [left; reflexivity|]. unfold sprefixb. rewrite E1, E2. reflexivity.
+      * apply Hrec; [exact H|]. intros i. cbn [spec_step]. rewrite Ev.
+        destruct (prefixb p (q ++ [i])) eqn:E3.
+        -- destruct (prefixb_snoc_r _ _ _ E3) as [Hl| ->]; [congruence|]. rewrite prefixb_app in E2. discriminate.
+        -- destruct (prefixb (q ++ [i]) p) eqn:E4; [|reflexivity]. rewrite (prefixb_snoc_l _ _ _ E4) in E2. discriminate.
+Qed.
+
+(* ------------------------------------------------------------------ a repeated write in one cycle is silent *)
+Lemma set_again_silent : forall t v p s k v0,
+  fx s -> get p s = Some (Leaf k v0) -> lmt k = t ->
+  r_up (at_path (op_set t v) t p s) = false /\
+  forall q, option_map tracking (get q (r_tree (at_path (op_set t v) t p s))) = option_map tracking (get q s).
+Proof.
+  intros t v p. induction p as [|i p IH]; intros s k v0 Hfx Hg Hk.
+  - cbn in Hg. injection Hg as ->. cbn [at_path op_set]. assert (lmt k =? t = true) as -> by lia. cbn.
+    split; [reflexivity|]. intros [|j q]; reflexivity.
+  - destruct (fx_get_cons _ _ _ _ Hfx Hg) as (k1 & fk & b & kids & n & c & -> & Hz & Hn & Hgc).
+    assert (Hcc : child_of (Fix k1 fk b kids) i = Some c) by (cbn; rewrite Hz; exact Hn).
+    destruct (IH c k v0 (fx_child _ _ _ Hfx Hcc) Hgc Hk) as [Hup Hq].
+    cbn [at_path]. rewrite Hz, Hn, Hup. cbn [notify_parent r_up r_tree].
+    split; [reflexivity|]. intros [|j q]; [reflexivity|]. cbn [get].
+    destruct (zidx j) as [m|] eqn:Hzj; [|reflexivity].
+    destruct (Nat.eq_dec n m) as [<-|Hne].
+    + rewrite (nth_error_set_nth_same _ _ _ _ _ Hn), Hn. apply Hq.
+    + rewrite nth_error_set_nth_other by exact Hne. reflexivity.
+Qed.
+
+(* ------------------------------------------------------------------ dictionaries: the parent follows its children *)
+Lemma dict_parent_if_child : forall f t k e kids key p',
+  lmt k <= t ->
+  let r := at_path f t (key :: p') (Dict k e kids) in
+  (dict_find key kids = None -> lmt_of (r_tree r) = t) /\
+  (forall c, dict_find key kids = Some c -> r_up (at_path f t p' c) = true -> lmt_of (r_tree r) = t).
+Proof.
+  intros f t k e kids key p' Hk r. subst r. cbn [at_path]. unfold dict_ensure. split.
+  - intros Hnone. rewrite Hnone.
+    destruct (rec_mod t k) as [k1 up1] eqn:Hr.
+    assert (Hk1 : lmt k1 = t) by (replace k1 with (fst (rec_mod t k)) by (rewrite Hr; reflexivity); apply rec_mod_lmt; exact Hk).
+    destruct (notify_parent t (r_up (at_path f t p' (init e))) k1) as [k2 up2] eqn:Hn.
+    unfold lmt_of. cbn [r_tree tracking].
+    unfold notify_parent in Hn. destruct (r_up (at_path f t p' (init e))).
+    + replace k2 with (fst (rec_mod t k1)) by (rewrite Hn; reflexivity). apply rec_mod_lmt. lia.
+    + injection Hn as <- _. exact Hk1.
+  - intros c Hc Hup. rewrite Hc, Hup. cbn [notify_parent].
+    destruct (rec_mod t k) as [k2 up2] eqn:Hr. unfold lmt_of. cbn [r_tree tracking].
+    replace k2 with (fst (rec_mod t k)) by (rewrite Hr; reflexivity). apply rec_mod_lmt. exact Hk.
+Qed.
+
+Lemma dict_erase_marks : forall t key k e kids, lmt k <= t -> lmt_of (r_tree (op_erase t key (Dict k e kids))) = t.
+Proof.
+  intros t key k e kids Hk. cbn [op_erase]. destruct (dict_find key kids); destruct (rec_mod t k) as [k' up] eqn:Hr;
+    unfold lmt_of; cbn [r_tree tracking]; (replace k' with (fst (rec_mod t k)) by (rewrite Hr; reflexivity)); apply rec_mod_lmt; exact Hk.
+Qed.
+
+(* ------------------------------------------------------------------ consumers *)
+(* below the link's root, and at the root whenever the link is not ahead of the data, a consumer's
+   line is the producer's line *)
+Lemma consumer_line_agrees : forall who t p lk root x,
+  lk <= lmt_of x -> lmt_of x <= t ->
+  node_line who t p (Some lk) root x = node_line who t p None root x.
+Proof.
+  intros who t p lk root x H1 H2. unfold node_line.
+  assert (lmt_of x <? lk = false) as -> by lia. cbn [orb].
+  destruct root.
+  - assert (Z.max lk (lmt_of x) = lmt_of x) as -> by lia.
+    unfold modified. f_equal. f_equal. f_equal.
+    destruct (lk =? t) eqn:E; cbn [orb]; [|reflexivity].
+    assert (lmt_of x =? t = true) as -> by lia. reflexivity.
+  - reflexivity.
+Qed.
+
+(* validity and value never depend on the link at all: both lines carry [valid x] and [value_of x] *)
+Lemma consumer_valid_value_agree : forall who t p lk root x,
+  exists md l rd dv md' l' rd' dv',
+    node_line who t p (Some lk) root x = obs_line who t p (valid x) md l (value_of x) rd dv /\
+    node_line who t p None root x = obs_line who t p (valid x) md' l' (value_of x) rd' dv'.
+Proof. intros who t p lk root x. unfold node_line. repeat eexists. Qed.
+
+(* two consumers of one endpoint stay in step *)
+Lemma feed_deterministic : forall t a b c1 c2,
+  c_path c1 = c_path c2 -> c_bound c1 = c_bound c2 -> c_link c1 = c_link c2 ->
+  c_link (feed t a b c1) = c_link (feed t a b c2) /\ c_bound (feed t a b c1) = c_bound (feed t a b c2).
+Proof.
+  intros t a b c1 c2 Hp Hb Hl. unfold feed. rewrite Hp, Hb.
+  destruct (c_bound c2 && (target_ncnt (c_path c2) a <? target_ncnt (c_path c2) b)); cbn; split; congruence.
+Qed.
+
+(* ------------------------------------------------------------------ parents and children, on every shape and history *)
+Section ParentChild.
+  Variable sh : shape.
+  Variable h : hist.
+  Hypothesis Hsh : has_dict sh = false.
+  Hypothesis Htimes : times_ok MIN_DT h.
+  Hypothesis Htyped : Forall (fun e => typed (init sh) (snd e)) h.
+
+  Lemma last_write_monoL : forall q i, last_write h (q ++ [i]) <= last_write h q.
+  Proof.
+    intros q i.
+    destruct (run_invariant (init sh) h (init sh) MIN_DT [] (fresh_inv_state _ (init_fx _ Hsh) (init_fresh _ Hsh))
+                ltac:(lia) Htimes Htyped) as (now' & Hinv & Hle).
+    rewrite <- !(lmt_is_last_write_sh sh h Hsh Htimes Htyped).
+    apply (lmt_at_monoL _ now' (is_mono _ _ _ _ Hinv) (is_bounded _ _ _ _ Hinv)).
+  Qed.
+
+  (* in the current cycle t (no later write exists): a modified child makes its parent modified *)
+  Lemma child_then_parent : forall q i t,
+    (forall e, In e h -> fst e <= t) -> MIN_DT <= t -> last_write h (q ++ [i]) = t -> last_write h q = t.
+  Proof.
+    intros q i t Hmax Ht Hc. pose proof (last_write_monoL q i) as Hm.
+    assert (last_write h q <= t).
+    { unfold last_write. apply last_write_le; [exact Ht|]. intros e He. apply Hmax. apply in_rev. exact He. }
+    lia.
+  Qed.
+
+  (* a fixed collection is modified only if a child is, or a child was invalidated in that cycle *)
+  Lemma parent_only_if_child : forall q t,
+    skel (init sh) q = Some 1 -> last_write h q = t -> t <> MIN_DT ->
+    (exists i, last_write h (q ++ [i]) = t) \/ (exists p, In (t, OInv p) h /\ sprefixb q p = true).
+  Proof.
+    intros q t Hq Hl Ht. unfold last_write in *.
+    destruct (parent_only_if_child_rev (rev h) q t) as [Hc|(p & Hin & Hs)]; try assumption.
+    - intros t' p v Hin Heq. subst p. apply in_rev in Hin.
+      rewrite Forall_forall in Htyped. specialize (Htyped _ Hin). cbn [snd typed] in Htyped. congruence.
+    - left. exact Hc.
+    - right. exists p. split; [apply in_rev; exact Hin|exact Hs].
+  Qed.
+End ParentChild.
